@@ -316,6 +316,10 @@ def _origins(ctx, P):
             continue
         ev = evaluate(f)
         ss = [s for s in ev.sites.values() if s.callee[0] == callee]
+        if not ss:
+            # the wrapper draws by itself instead of delegating: what it returns must come from a fresh draw
+            check_origin(ctx, P, fk, "returned value (drawn in place)", lambda ev_: ev_.ret, need="fresh")
+            continue
         ok = bool(ss) and len(ss[0].args) > idx and gen_ok(B.peel(ss[0].args[idx])) == "fresh"
         ctx.ob("E6.origin", _PFX + fk, ok, "%s receives a generator created by get_crypto_rng() in this very call" % callee, where=where(f))
         blanks = [s for s in ev.sites.values() if s.callee[0] == "helpers::get_crypto_rng"]
